@@ -244,6 +244,12 @@ func (sc siteCount) String() string {
 // their inventory entry, e.g. a recover() frame).
 func (c *Ctx) PanicInventory(entries []string, stop []string, table map[string]Inv) {
 	rule := "panic-inventory"
+	if c.P.Config != "" {
+		// the compiler's bounds-check report is specific to a build configuration;
+		// the reviewed inventory is for the default one
+		c.Note("panic inventory skipped under %s", c.P.Config)
+		return
+	}
 	stopAt := map[string]bool{}
 	for _, s := range stop {
 		stopAt[s] = true
